@@ -55,9 +55,39 @@ import (
 	"strings"
 	"sync"
 	"sync/atomic"
+	"syscall"
 	"testing"
 	"time"
 )
+
+// verifPortBlock: this process's block of 20 sink ports below the ephemeral range, reserved for the life of the
+// process by an exclusive lock on a file named after the block (two test processes running in parallel — two checks, a
+// check and a sweep — used to share a block whenever their pids were equal modulo 590, and one's producer then fed the
+// other's udp sink: "line is not a handed-over message", 2 in 6000 thorough cases on a busy machine)
+var (
+	verifPortBlockNo   = -1
+	verifPortBlockLock *os.File
+)
+
+func verifPortBlock() int {
+	if verifPortBlockNo >= 0 {
+		return verifPortBlockNo
+	}
+	for i := 0; i < 590; i++ {
+		b := (os.Getpid() + i) % 590
+		f, err := os.OpenFile(filepath.Join(os.TempDir(), fmt.Sprintf("verif-portblock-%d.lock", b)), os.O_CREATE|os.O_RDWR, 0600)
+		if err != nil {
+			continue
+		}
+		if syscall.Flock(int(f.Fd()), syscall.LOCK_EX|syscall.LOCK_NB) == nil {
+			verifPortBlockLock, verifPortBlockNo = f, b
+			return b
+		}
+		f.Close()
+	}
+	verifPortBlockNo = os.Getpid() % 590
+	return verifPortBlockNo
+}
 
 type verifChunkLog struct {
 	mu    sync.Mutex
@@ -514,7 +544,7 @@ func verifRawSocketCase(dir string, caseNo int, line string, lane int) (string, 
 			if lane != 0 {
 				port = 16 + (caseNo+try)%4
 			}
-			sink.addr = fmt.Sprintf("127.0.0.1:%d", 20000+(os.Getpid()%590)*20+port)
+			sink.addr = fmt.Sprintf("127.0.0.1:%d", 20000+verifPortBlock()*20+port)
 			if err = sink.listenOnce(); err == nil {
 				break
 			}
